@@ -2,8 +2,12 @@
 use crate::fw::PropDef;
 
 pub mod c05;
+pub mod c06;
+pub mod c07;
+pub mod c08;
+pub mod c14;
 pub mod recv;
 
 pub fn all() -> Vec<PropDef> {
-    vec![c05::def()]
+    vec![c05::def(), c06::def(), c07::def(), c08::def(), c14::def()]
 }
